@@ -163,6 +163,7 @@ def run(chk):
     old = emf.EvolvedMF._evolve
     emf.EvolvedMF._evolve = lambda self: None
     nrow = 0
+    rexprs, rmeta = [], []
     try:
         for x in xs[: (200 if chk.tier == "quick" else 2000)]:
             nrow += 1
@@ -175,12 +176,19 @@ def run(chk):
             k = int(np.flatnonzero((ms[:, 1:] == m._tms_constants).all(axis=1))[0])
             if abs(ms[k, 0] - x) > np.min(np.abs(ms[:, 0] - x)) + 1e-15:
                 chk.fail("lifetimes of the nearest tabulated metallicity", dict(FeH=x), dict(row=k, row_FeH=float(ms[k, 0])))
+            rexprs.append("(nearest_row_wd (O:=F_ops) %s %s, nearest_row (O:=F_ops) %s %s)" % (
+                C.fll(wd[:, 0]), C.fl(xc), C.fll(ms[:, 0]), C.fl(x)))
+            rmeta.append((float(x), j, k))
             fk = m._kick_kw["FeH"]
             ls, neg_h, pos_h = grids["banerjee20"]
             if fk != min(max(x, -neg_h / 100), pos_h / 100):
                 chk.fail("kick metallicity is the BH-grid clamp of the requested one", dict(FeH=x), dict(kick_FeH=float(fk)))
     finally:
         emf.EvolvedMF._evolve = old
+    vals = C.eval_cases("C10rows", "From SSP Require Import Model.Lifetime.", "", rexprs, shard=400)
+    dis = [dict(input=dict(FeH=x), impl=[j, k], model=[int(v[0]), int(v[1])]) for (x, j, k), v in zip(rmeta, vals)
+           if (int(v[0]), int(v[1])) != (j, k)]
+    chk.correspondence("nearest_row (first minimum of |grid - FeH|, theorem C14_nearest_row) vs the WD row and lifetime row actually used", len(rmeta), dis)
     chk.count("WD / lifetime / kick rows checked", nrow)
     chk.trusted += ["harness/props/C10.py (numpy.loadtxt wrapper observes the file opened)",
                     "Python's float formatting f'{x:+.2f}' is correctly rounded (round-half-even on the exact binary value)",
